@@ -6,6 +6,7 @@ import re
 from typing import Dict, List, Optional, Set, Tuple
 
 from ..core import AnalysisError, RuleSpec
+from . import common
 from ..pymodel import call_name
 from .. import astq
 from . import c19
@@ -315,9 +316,40 @@ def r4_cursor_progress(ctx, rep):
         raise AnalysisError(f"only {n} QUOTES_RE masking loops found")
 
 
+
+def r5_regex_termination(ctx, rep):
+    """no repeated group of a parse-path regex can consume the same text in two ways while something after it may still
+    fail (the shape of exponential backtracking): decided with the regular-language engine as B.B & B = empty for the
+    body B of every unbounded repeat that has a continuation"""
+    rx = ctx.rx
+    n = 0
+    for name, (pat, flags, node, mod) in sorted(ctx.regexes.items()):
+        if mod not in ("sourceform", "reader", "utils"):
+            continue
+        try:
+            w = common.ambiguous_star(rx, pat, flags)
+        except rx.Unsupported:
+            continue
+        n += 1
+        rep.ob(f"{name}: repeats are unambiguous", w is None,
+               "no unbounded repeat with a continuation can split the same text in two ways" if w is None else
+               f"an unbounded repeat in {name} can consume `{w}` in more than one way and is followed by something that can fail: "
+               f"on a non-matching line (e.g. an unterminated literal) the matcher tries exponentially many splits and FORD "
+               f"does not terminate in practice", ctx.py.nloc(node), witness=w)
+    if n < 20:
+        raise AnalysisError(f"only {n} parse-path regexes examined")
+
+
+def r6_memo(ctx, rep):
+    """state that survives a rejected file: caches must be functions of their key (shared with C04.R6)"""
+    common.memo_soundness(ctx, rep, modules=("sourceform", "reader", "utils", "fortran_project"))
+
+
 RULES = [
     RuleSpec("C20.R1", r1_containment, "per-file containment structure", floor=4),
     RuleSpec("C20.R2", r2_no_cross_file_state, "no partial registration, no cross-file mutable state", floor=3),
     RuleSpec("C20.R3", r3_nesting_errors_raise, "malformed nesting raises", floor=14),
     RuleSpec("C20.R4", r4_cursor_progress, "cursor progress in the literal masking loops", floor=2),
+    RuleSpec("C20.R5", r5_regex_termination, "parse-path regexes cannot backtrack exponentially", floor=20),
+    RuleSpec("C20.R6", r6_memo, "caches are functions of their key", floor=1),
 ]
